@@ -1008,6 +1008,11 @@ func c13RoundRobin(c *Ctx) {
 			ok, why = false, "the number of attempts per call is not len(dec) (the loop is not a range over the decoder slice)"
 		}
 	}
+	if ok && d.Call.Args[len(d.Call.Args)-1] != ssa.Value(fn.Params[0]) {
+		// gob omits zero fields and the CSV/JSON decoders leave absent ones untouched: a retained
+		// scratch value carries fields over from the previous record (usually of another input)
+		ok, why = false, "the selected decoder does not decode straight into the caller's Result ("+describeVal(d.Call.Args[len(d.Call.Args)-1])+"): a retained scratch value carries fields over between inputs"
+	}
 	var seqCell ssa.Value
 	if ok {
 		// decoder selected: dec[seq % len(dec)]
